@@ -73,7 +73,7 @@ COVERS = {'rotx', 'roty', 'rotz', 'trotx', 'troty', 'trotz', 'transl', 'eul2r', 
 def harvest():
     """names of functions whose docstring carries ':SymPy: supported' in the current source"""
     out = set()
-    d = os.path.join('/repo', 'spatialmath')
+    d = os.path.join(os.environ.get('VERIF_REPO', '/repo'), 'spatialmath')
     for dirpath, _, files in os.walk(d):
         for f in files:
             if not f.endswith('.py') or f in ('animate.py',):
@@ -117,7 +117,7 @@ print('SYMRESULT ' + json.dumps(out))
 def sympy_side(code):
     """run the expression on real SymPy symbols in a fresh interpreter without shims"""
     if code not in _SYM_CACHE:
-        env = dict(os.environ, PYTHONPATH='', MPLBACKEND='Agg', PYTHONWARNINGS='ignore', PYTHONDONTWRITEBYTECODE='1')
+        env = dict(os.environ, PYTHONPATH=os.environ.get('VERIF_REPO', '/repo'), MPLBACKEND='Agg', PYTHONWARNINGS='ignore', PYTHONDONTWRITEBYTECODE='1')
         p = subprocess.run(['/venv/bin/python', '-c', _SUB, code], capture_output=True, text=True, env=env, timeout=300)
         res = None
         for line in p.stdout.splitlines():
